@@ -50,7 +50,20 @@ func (ex *Exec) specTerm(e SExpr, env *SpecEnv) (t Term, err error) {
 func sfail(format string, a ...any) { panic(specErr{fmt.Sprintf(format, a...)}) }
 
 func (ex *Exec) contractError(cl *Clause, err error) {
-	ex.P.BindErrors = append(ex.P.BindErrors, fmt.Sprintf("%s:%d: in %q: %v", cl.File, cl.Line, cl.Text, err))
+	ex.P.bindProblem(ex.F.Name, fmt.Sprintf("%s:%d: in %q: %v", cl.File, cl.Line, cl.Text, err))
+}
+
+// bindProblem records that the contract of fn does not fit the code any more (a renamed local, a restructured loop)
+func (p *Prog) bindProblem(fn, msg string) {
+	if p.BindByFunc == nil {
+		p.BindByFunc = map[string][]string{}
+	}
+	for _, m := range p.BindByFunc[fn] {
+		if m == msg {
+			return
+		}
+	}
+	p.BindByFunc[fn] = append(p.BindByFunc[fn], msg)
 }
 
 func (ex *Exec) clauseTags(cl *Clause) []string { return ex.clauseTagsOf(cl, ex.F.Contract) }
@@ -142,6 +155,18 @@ func (ex *Exec) sp(e SExpr, env *SpecEnv) Term {
 	case SIdent:
 		if t, ok := env.names[x.Name]; ok {
 			return t
+		}
+		if env.useVars {
+			if _, known := ex.names[x.Name]; !known {
+				if nn, ok := ex.loopRename[x.Name]; ok {
+					if _, known := ex.names[nn]; known {
+						x.Name = nn
+					}
+				}
+				if t, ok := ex.loopAlias[x.Name]; ok {
+					return t
+				}
+			}
 		}
 		if env.useVars && env.inOld {
 			// inside old(): a parameter denotes its entry value
